@@ -25,7 +25,11 @@ import (
 	"encoding/base64"
 	"errors"
 	"fmt"
+	"io"
+	"log"
+	"net/http"
 	"net/http/httptest"
+	"reflect"
 	"runtime"
 	"sort"
 	"strconv"
@@ -87,6 +91,9 @@ func (p *c14StrArgs) Read(ctx context.Context, iprot thrift.TProtocol) error {
 				}
 				p.S = v
 				issetS = true
+				if v == c14PanicReadValue {
+					panic("scripted panic in args.Read")
+				}
 			} else if err := iprot.Skip(ctx, fieldTypeID); err != nil {
 				return err
 			}
@@ -146,15 +153,33 @@ func (p *c14PingResult) Read(ctx context.Context, iprot thrift.TProtocol) error 
 }
 
 func (p *c14PingResult) Write(ctx context.Context, oprot thrift.TProtocol) error {
+	// a result that cannot be serialised (in generated code: a nil struct element, a nil pointer
+	// where Write dereferences it): panics after `at` protocol writes
+	at := -1
+	if p.Success != nil && strings.HasPrefix(*p.Success, c14PanicWriteMarker) {
+		at, _ = strconv.Atoi((*p.Success)[len(c14PanicWriteMarker):])
+	}
+	if at == 0 {
+		panic("scripted panic in result.Write")
+	}
 	if err := oprot.WriteStructBegin(ctx, "ping_result"); err != nil {
 		return err
+	}
+	if at == 1 {
+		panic("scripted panic in result.Write")
 	}
 	if p.Success != nil {
 		if err := oprot.WriteFieldBegin(ctx, "success", thrift.STRING, 0); err != nil {
 			return err
 		}
+		if at == 2 {
+			panic("scripted panic in result.Write")
+		}
 		if err := oprot.WriteString(ctx, *p.Success); err != nil {
 			return err
+		}
+		if at >= 3 {
+			panic("scripted panic in result.Write")
 		}
 		if err := oprot.WriteFieldEnd(ctx); err != nil {
 			return err
@@ -197,6 +222,11 @@ func (p *c14NopResult) Write(ctx context.Context, oprot thrift.TProtocol) error 
 type c14Handler struct{}
 
 func c14Scripted(fctx frugal.FContext) (string, error) {
+	if pos, _ := fctx.RequestHeader("x-panic"); pos == "h" {
+		panic("scripted panic in the handler")
+	} else if strings.HasPrefix(pos, "w") {
+		return c14PanicWriteMarker + pos[1:], nil // a result whose Write panics
+	}
 	tok, _ := fctx.RequestHeader("x-out")
 	switch {
 	case strings.HasPrefix(tok, "s:"):
@@ -321,13 +351,36 @@ func (p *c14FFire) Process(fctx frugal.FContext, iprot, oprot *frugal.FProtocol)
 	return err
 }
 
+const (
+	c14PanicWriteMarker = "\x00c14-panic-in-write:"
+	c14PanicReadValue   = "\x00c14-panic-in-read"
+)
+
+// c14PanicMW is a ServiceMiddleware that does nothing — unless the request's x-panic header asks
+// it to panic before ("b") or after ("a") the handler.
+func c14PanicMW(next frugal.InvocationHandler) frugal.InvocationHandler {
+	return func(service reflect.Value, method reflect.Method, args frugal.Arguments) frugal.Results {
+		pos, _ := args.Context().RequestHeader("x-panic")
+		if pos == "b" {
+			panic("scripted panic in a middleware before the handler")
+		}
+		ret := next(service, method, args)
+		if pos == "a" {
+			panic("scripted panic in a middleware after the handler")
+		}
+		return ret
+	}
+}
+
+var c14MW = []frugal.ServiceMiddleware{c14PanicMW}
+
 func newC14Processor() *frugal.FBaseProcessor {
 	p := frugal.NewFBaseProcessor()
 	h := c14Handler{}
-	p.AddToProcessorMap("ping", &c14FPing{frugal.NewFBaseProcessorFunction(p.GetWriteMutex(), frugal.NewMethod(h, h.Ping, "Ping", nil))})
-	p.AddToProcessorMap("nop", &c14FNop{frugal.NewFBaseProcessorFunction(p.GetWriteMutex(), frugal.NewMethod(h, h.Nop, "Nop", nil))})
-	p.AddToProcessorMap("blob", &c14FBlob{frugal.NewFBaseProcessorFunction(p.GetWriteMutex(), frugal.NewMethod(h, h.Blob, "Blob", nil))})
-	p.AddToProcessorMap("fire", &c14FFire{frugal.NewFBaseProcessorFunction(p.GetWriteMutex(), frugal.NewMethod(h, h.Fire, "Fire", nil))})
+	p.AddToProcessorMap("ping", &c14FPing{frugal.NewFBaseProcessorFunction(p.GetWriteMutex(), frugal.NewMethod(h, h.Ping, "Ping", c14MW))})
+	p.AddToProcessorMap("nop", &c14FNop{frugal.NewFBaseProcessorFunction(p.GetWriteMutex(), frugal.NewMethod(h, h.Nop, "Nop", c14MW))})
+	p.AddToProcessorMap("blob", &c14FBlob{frugal.NewFBaseProcessorFunction(p.GetWriteMutex(), frugal.NewMethod(h, h.Blob, "Blob", c14MW))})
+	p.AddToProcessorMap("fire", &c14FFire{frugal.NewFBaseProcessorFunction(p.GetWriteMutex(), frugal.NewMethod(h, h.Fire, "Fire", c14MW))})
 	return p
 }
 
@@ -411,6 +464,10 @@ func c14WriteArgs(prot thrift.TProtocol, tr *thrift.TMemoryBuffer, proto, class 
 	}
 	prot.WriteStructBegin(ctx, "args")
 	switch class {
+	case "okp": // well-formed on the wire; the hand-written Read panics on this value
+		prot.WriteFieldBegin(ctx, "s", thrift.STRING, 1)
+		prot.WriteString(ctx, c14PanicReadValue)
+		prot.WriteFieldEnd(ctx)
 	case "ok0":
 		str()
 	case "ok1":
@@ -706,7 +763,12 @@ func c14Run(proto, mode string, reqs []*c14Req) (string, []*c14Reply, error, []c
 				}
 				var err error
 				// the watchdog: a request with healthy transports must not wait for anything
-				if o := guard(time.Second, func() { err = proc.Process(pf.GetProtocol(in), pf.GetProtocol(outT)) }); o != "" {
+				if o := guard(time.Second, func() { err = proc.Process(pf.GetProtocol(in), pf.GetProtocol(outT)) }); strings.HasPrefix(o, "panic") && strings.HasPrefix(q.out, "P") {
+					// user-supplied code panicked; the embedding (net/http does the same) recovers, drops
+					// whatever was written for this request and goes on serving the others
+					results[i] = "panic"
+					continue
+				} else if o != "" {
 					c14Wedged++
 					results[i] = o
 					results = results[:i+1]
@@ -714,6 +776,40 @@ func c14Run(proto, mode string, reqs []*c14Req) (string, []*c14Reply, error, []c
 				}
 				results[i] = class(q, err)
 				stream = append(stream, data()...)
+			}
+		case "hsrv": // the real HTTP handler on a real net/http server (which recovers a panicking request and drops its connection)
+			ts := httptest.NewUnstartedServer(frugal.NewFrugalHandlerFunc(proc, pf))
+			ts.Config.ErrorLog = log.New(io.Discard, "", 0)
+			ts.Start()
+			defer func() { go ts.Close() }() // Close waits for requests in flight: a wedged one must not wedge the harness
+			for i, q := range reqs {
+				b := c14Bytes(proto, q)
+				body := base64.StdEncoding.EncodeToString(append(be32(uint32(len(b))), b...))
+				client := &http.Client{Timeout: 1500 * time.Millisecond, Transport: &http.Transport{}} // a new connection per request
+				resp, err := client.Post(ts.URL, "application/x-frugal", strings.NewReader(body))
+				if err != nil {
+					if ne, ok := err.(interface{ Timeout() bool }); ok && ne.Timeout() {
+						c14Wedged++
+						results[i] = "blocked"
+						results = results[:i+1]
+						break
+					}
+					results[i] = "panic" // connection dropped without a response
+					continue
+				}
+				raw64, _ := io.ReadAll(resp.Body)
+				resp.Body.Close()
+				if resp.StatusCode != 200 {
+					results[i] = "err"
+					continue
+				}
+				results[i] = "ok"
+				raw, e := base64.StdEncoding.DecodeString(string(raw64))
+				if e != nil || len(raw) < 4 || int(uint32(raw[0])<<24|uint32(raw[1])<<16|uint32(raw[2])<<8|uint32(raw[3])) != len(raw)-4 {
+					framingErr = errors.New("response body is not one base64 size-prefixed frame")
+					continue
+				}
+				stream = append(stream, raw[4:]...)
 			}
 		case "concsep": // concurrent workers, each message with its own buffers (NATS server workers' shape)
 			outs := make([][]byte, len(reqs))
@@ -830,6 +926,8 @@ var c14Known = map[string]struct {
 func c14Expect(q *c14Req) (count int, kind string, exType int32, payload string, cls string) {
 	count, kind, exType, payload, cls = c14ExpectHealthy(q)
 	switch ok, _, fits := c14OutKind(q); {
+	case ok == "P":
+		return 0, "", 0, "", cls + "/panics" // its connection is dropped; nothing of it is observed
 	case ok == "W" || ok == "FL":
 		if count != 0 {
 			return 0, "", 0, "", cls + "/peer-gone" // nothing can reach a dead peer
@@ -890,7 +988,7 @@ func c14Oracle(mode string, reqs []*c14Req, replies []*c14Reply, perr error, rea
 		return "processing a request sequence: " + real
 	}
 	if strings.Contains(real, "blocked") || strings.Contains(real, "panic:") {
-		return "a request with healthy transports did not return (or panicked) after an earlier request's reply could not be written: the shared processor is wedged"
+		return "a request with healthy transports did not return (or panicked) after an earlier request failed while its reply was being written (write error, overflow, or a panic of user-supplied code): the shared processor is wedged"
 	}
 	if perr != nil {
 		return "the output is not a sequence of whole replies: " + perr.Error()
@@ -1205,8 +1303,8 @@ var c14Wedged, c14Minimised int
 func runC14(r *Rng, n int) {
 	for i := 0; i < n; i++ {
 		proto := r.PickS("bin", "cmp")
-		mode := r.PickS("shared", "simple", "sep", "sep", "http", "conc", "conc", "concsep", "bounded", "bounded", "fault", "fault")
-		if c14Wedged >= 12 && (mode == "bounded" || mode == "fault") {
+		mode := r.PickS("shared", "simple", "sep", "sep", "http", "conc", "conc", "concsep", "bounded", "bounded", "fault", "fault", "fault", "hsrv")
+		if c14Wedged >= 12 && (mode == "bounded" || mode == "fault" || mode == "hsrv") {
 			mode = "sep" // established and reported; every further instance costs a watchdog period
 		}
 		k := 1 + r.Intn(9)
@@ -1226,7 +1324,7 @@ func runC14(r *Rng, n int) {
 				}
 				break
 			}
-			if mode == "bounded" || mode == "fault" {
+			if mode == "bounded" || mode == "fault" || mode == "hsrv" {
 				Stat(c14GenOut(r, proto, mode, reqs[j], j == 0))
 			}
 			Stat(cls)
@@ -1293,7 +1391,7 @@ func init() {
 			return "bad-op", true
 		}
 		proto, mode := args[1], args[2]
-		if _, ok := c14Factories[proto]; !ok || (mode != "shared" && mode != "sep" && mode != "conc" && mode != "simple" && mode != "http" && mode != "concsep" && mode != "bounded" && mode != "fault") {
+		if _, ok := c14Factories[proto]; !ok || (mode != "shared" && mode != "sep" && mode != "conc" && mode != "simple" && mode != "http" && mode != "concsep" && mode != "bounded" && mode != "fault" && mode != "hsrv") {
 			return "bad-op", true
 		}
 		var reqs []*c14Req
